@@ -132,6 +132,32 @@ def a_cleanUpDefault(T):
     return f'(if cleanUpIsNone then {e} else cleanUp)'
 
 
+def _defers_cleanup(T, fname, sync_call):
+    """does `fname` pass clean_up=False to reap_runner and call delete_all only after the farmer's sync call?"""
+    f = find(T['cropping'], ['Crop', fname])
+    calls = [n for n in ast.walk(f) if isinstance(n, ast.Call)]
+    rr = one([c for c in calls if ast.unparse(c.func) == 'self.reap_runner'], 'reap_runner call')
+    cu = [k.value for k in rr.keywords if k.arg == 'clean_up']
+    passes_false = len(cu) == 1 and isinstance(cu[0], ast.Constant) and cu[0].value is False
+    sync = [c for c in calls if ast.unparse(c.func).endswith(sync_call)]
+    dele = [c for c in calls if ast.unparse(c.func) == 'self.delete_all']
+    if not passes_false:
+        return 'false'
+    if len(sync) != 1 or len(dele) != 1:
+        raise NotFound('sync / delete_all calls')
+    after = (dele[0].lineno, dele[0].col_offset) > (sync[0].end_lineno, sync[0].end_col_offset)
+    # the deletion must not sit in a finally / except block
+    for n in ast.walk(f):
+        if isinstance(n, ast.Try):
+            for blk in n.finalbody + [h for hd in n.handlers for h in hd.body]:
+                if any(c is dele[0] for c in ast.walk(blk)): after = False
+    return 'true' if after else 'false'
+
+
+def a_harvestDefersCleanup(T): return _defers_cleanup(T, 'reap_harvest', '.add_ds')
+def a_samplesDefersCleanup(T): return _defers_cleanup(T, 'reap_samples', '.add_df')
+
+
 ANCHORS = [
     # name, Lean signature, extractor
     ('nbFromBs', '(n batchsize : Int) : Int', a_nbFromBs),
@@ -143,6 +169,8 @@ ANCHORS = [
     ('sowerFlush', '(counter batchsize : Int) (extraBatch : Bool) : Bool', a_sowerFlush),
     ('isReady', '(numResults numSown : Int) : Bool', a_isReady),
     ('cleanUpDefault', '(cleanUpIsNone cleanUp allowIncomplete : Bool) : Bool', a_cleanUpDefault),
+    ('harvestDefersCleanup', ': Bool', a_harvestDefersCleanup),
+    ('samplesDefersCleanup', ': Bool', a_samplesDefersCleanup),
 ]
 
 FILES = {
